@@ -171,13 +171,23 @@ impl BaseGrid {
         let bands = header[6] as usize;
         let rows = ((lat_s - lat_n) / dlat + 1.5).floor() as usize;
         let cols = ((lon_e - lon_w) / dlon + 1.5).floor() as usize;
-        let elements = rows * cols * bands;
+        // Saturated row/column counts of a malformed header must not overflow: treat as empty
+        let elements = rows
+            .checked_mul(cols)
+            .and_then(|n| n.checked_mul(bands))
+            .unwrap_or(0);
 
         let offset = offset.unwrap_or(0);
 
         let grid = Vec::from(grid.unwrap_or(&[]));
 
-        if elements == 0 || (offset == 0 && elements > grid.len()) || bands < 1 {
+        // Bilinear interpolation needs at least one full cell, i.e. two rows and two columns
+        if elements == 0
+            || rows < 2
+            || cols < 2
+            || (offset == 0 && elements > grid.len())
+            || bands < 1
+        {
             return Err(Error::General("Malformed grid"));
         }
 
